@@ -3,7 +3,7 @@ CONSTANTS
  TokKinds <- KLength
  MaxLen = 6
  H1s <- AllH1s
- H2s <- H2None
+ H2s <- H2Long
  Markups <- MNoneIe
  Dump = TRUE
 INIT Init
